@@ -246,4 +246,134 @@ theorem icLoop_spec (frags : List Frag) (hok : FragsOk frags) (c : LNode) (hcl :
       simp [hns, hp]
 
 end
+
+/-! ## One call of the matcher, by the kind of entry on top of its stack -/
+
+section
+variable (ns : NsMap)
+
+/-- the result computed from what the context-ignoring loop returns -/
+def icResult (frags : List Frag) (e : Event) (r : Nat × Nat × Nat × Option NodeTest) : Val :=
+  if r.1 + 1 == frags.length && r.2.1 == r.2.2.1 then
+    (match r.2.2.2 with
+     | some a => a.apply e ns
+     | none => .bool true)
+  else .none
+
+/-- what the matcher pushes and reports from a context-ignoring entry `(fid, p)` -/
+def icOut (frags : List Frag) (e : Event) (fid p : Nat) : PEntry × Val :=
+  (⟨some ((icLoop frags e ns (frags.length + 1) fid p).1, (icLoop frags e ns (frags.length + 1) fid p).2.1), true⟩,
+   icResult ns frags e (icLoop frags e ns (frags.length + 1) fid p))
+
+/-- what the matcher pushes and reports from the context-bound entry `(0, p)` -/
+def boundOut (frags : List Frag) (e : Event) (f0 : Frag) (p : Nat) : PEntry × Val :=
+  if !fragTest f0 p e ns then (⟨none, false⟩, .none)
+  else if p + 1 == f0.tests.length then
+    if frags.length == 1 then
+      (⟨none, false⟩, match f0.attr with
+        | some a => a.apply e ns
+        | none => .bool true)
+    else if !((frags[1]?.map Frag.selfBeginning).getD false) then (⟨some (1, 0), true⟩, .none)
+    else icOut ns frags e 1 0
+  else (⟨some (0, p + 1), false⟩, .none)
+
+theorem pStep_ic (frags : List Frag) (ig : Bool) (fid p : Nat) (rest : PState) (e : Event)
+    (he : e.isEnd = false) (hm : e.isNsOrCdata = false) :
+    pStep (some frags) ig ns (⟨some (fid, p), true⟩ :: rest) e =
+      ((if e.isStart then (icOut ns frags e fid p).1 :: ⟨some (fid, p), true⟩ :: rest
+        else ⟨some (fid, p), true⟩ :: rest),
+       (icOut ns frags e fid p).2) := by
+  simp only [pStep, he, hm, Bool.false_eq_true, if_false, if_true, Bool.not_true, Bool.false_and, icResult, icOut]
+  split <;> simp
+
+/-- the first event when the first non-empty fragment is entered through
+    `descendant-or-self::` (a leading `//`) -/
+theorem pStep_ic_root (frags : List Frag) (fid : Nat) (e : Event)
+    (he : e.isEnd = false) (hm : e.isNsOrCdata = false)
+    (hsk : skipEmpty frags (frags.length + 1) 0 = fid) (hpos : 0 < fid)
+    (hsb : (frags[fid]?.map Frag.selfBeginning).getD false = true) :
+    pStep (some frags) false ns [] e =
+      ((if e.isStart then [(icOut ns frags e fid 0).1] else []), (icOut ns frags e fid 0).2) := by
+  have hd : decide (fid > 0) = true := by simpa using hpos
+  simp only [pStep, he, hm, hsk, hsb, hd, Bool.false_eq_true, if_false, if_true, Bool.not_true, Bool.false_and,
+    Bool.false_or, icResult, icOut]
+  generalize icLoop frags e ns (frags.length + 1) fid 0 = r
+  obtain ⟨r1, r2, r3, r4⟩ := r
+  cases r4 <;> by_cases h : (r1 + 1 == frags.length && r2 == r3) = true <;> simp [h]
+
+/-- the first event when the fragment in front can only start below the context node
+    (`child::` or `descendant::` first) -/
+theorem pStep_skip_root (frags : List Frag) (fid : Nat) (e : Event)
+    (he : e.isEnd = false) (hm : e.isNsOrCdata = false)
+    (hsk : skipEmpty frags (frags.length + 1) 0 = fid)
+    (hsb : (frags[fid]?.map Frag.selfBeginning).getD false = false) :
+    pStep (some frags) false ns [] e = ([⟨some (fid, 0), decide (fid > 0)⟩], .none) := by
+  simp only [pStep, he, hm, hsk, hsb, Bool.false_eq_true, if_false, if_true, Bool.not_false, Bool.and_self,
+    Bool.false_or, Bool.not_true]
+
+/-- the entry of the fragment that is bound to the context node -/
+theorem pStep_bound (frags : List Frag) (ig : Bool) (f0 : Frag) (h0 : frags[0]? = some f0) (p : Nat)
+    (hp : p < f0.tests.length) (rest : PState) (e : Event) (he : e.isEnd = false) (hm : e.isNsOrCdata = false) :
+    pStep (some frags) ig ns (⟨some (0, p), false⟩ :: rest) e =
+      ((if e.isStart then (boundOut ns frags e f0 p).1 :: ⟨some (0, p), false⟩ :: rest
+        else ⟨some (0, p), false⟩ :: rest),
+       (boundOut ns frags e f0 p).2) := by
+  have hpl : (p == f0.tests.length) = false := by simp; omega
+  unfold boundOut
+  by_cases hft : fragTest f0 p e ns = true
+  · by_cases hp1 : (p + 1 == f0.tests.length) = true
+    · by_cases hfl : (frags.length == 1) = true
+      · have hfl' : (0 + 1 != frags.length) = false := by simp at hfl ⊢; omega
+        have hfl2 : (0 + 1 == frags.length) = true := by simp at hfl ⊢; omega
+        simp only [pStep, he, hm, Bool.false_eq_true, if_false, Bool.not_false, if_true, h0, hpl, hft, hp1, hfl, hfl',
+          hfl2, Bool.and_false, Bool.not_true, Bool.and_self]
+        cases f0.attr <;> rfl
+      · have hfl' : (0 + 1 != frags.length) = true := by simp at hfl ⊢; omega
+        by_cases hsb : (frags[1]?.map Frag.selfBeginning).getD false = true
+        · simp only [pStep, he, hm, Bool.false_eq_true, if_false, Bool.not_false, if_true, h0, hpl, hft, hp1, hfl, hfl',
+            Bool.and_self, Nat.zero_add, hsb, Bool.not_true, icResult, icOut, Bool.false_and]
+          generalize icLoop frags e ns (frags.length + 1) 1 0 = r
+          obtain ⟨r1, r2, r3, r4⟩ := r
+          cases r4 <;> by_cases h : (r1 + 1 == frags.length && r2 == r3) = true <;> simp [h]
+        · simp only [pStep, he, hm, Bool.false_eq_true, if_false, Bool.not_false, if_true, h0, hpl, hft, hp1, hfl, hfl',
+            Bool.and_self, Nat.zero_add, hsb, Bool.not_true]
+    · simp only [pStep, he, hm, Bool.false_eq_true, if_false, Bool.not_false, if_true, h0, hpl, hft, hp1,
+        Bool.false_and, Bool.and_false, Bool.not_true]
+  · simp only [pStep, he, hm, Bool.false_eq_true, if_false, Bool.not_false, if_true, h0, hpl, hft]
+
+/-- the first event when the path starts with `self::` -/
+theorem pStep_bound_root (frags : List Frag) (f0 : Frag) (h0 : frags[0]? = some f0)
+    (hp : 0 < f0.tests.length) (e : Event) (he : e.isEnd = false) (hm : e.isNsOrCdata = false)
+    (hsk : skipEmpty frags (frags.length + 1) 0 = 0) (hsb0 : f0.selfBeginning = true) :
+    pStep (some frags) false ns [] e =
+      ((if e.isStart then [(boundOut ns frags e f0 0).1] else []), (boundOut ns frags e f0 0).2) := by
+  have hpl : (0 == f0.tests.length) = false := by simp; omega
+  have hd : decide (0 > 0) = false := by simp
+  unfold boundOut
+  by_cases hft : fragTest f0 0 e ns = true
+  · by_cases hp1 : (0 + 1 == f0.tests.length) = true
+    · by_cases hfl : (frags.length == 1) = true
+      · have hfl' : (0 + 1 != frags.length) = false := by simp at hfl ⊢; omega
+        have hfl2 : (0 + 1 == frags.length) = true := by simp at hfl ⊢; omega
+        simp only [pStep, he, hm, hsk, hd, Bool.false_eq_true, if_false, Bool.not_false, if_true, h0, hpl, hft, hp1, hfl,
+          hfl', hfl2, Bool.and_false, Bool.not_true, Bool.and_self, Option.map_some, Option.getD_some, hsb0,
+          Bool.false_and, Bool.or_self]
+        cases f0.attr <;> rfl
+      · have hfl' : (0 + 1 != frags.length) = true := by simp at hfl ⊢; omega
+        by_cases hsb : (frags[1]?.map Frag.selfBeginning).getD false = true
+        · simp only [pStep, he, hm, hsk, hd, Bool.false_eq_true, if_false, Bool.not_false, if_true, h0, hpl, hft, hp1,
+            hfl, hfl', Bool.and_self, Nat.zero_add, hsb, Bool.not_true, icResult, icOut, Bool.false_and,
+            Option.map_some, Option.getD_some, hsb0, Bool.or_self]
+          generalize icLoop frags e ns (frags.length + 1) 1 0 = r
+          obtain ⟨r1, r2, r3, r4⟩ := r
+          cases r4 <;> by_cases h : (r1 + 1 == frags.length && r2 == r3) = true <;> simp [h]
+        · simp only [pStep, he, hm, hsk, hd, Bool.false_eq_true, if_false, Bool.not_false, if_true, h0, hpl, hft, hp1,
+            hfl, hfl', Bool.and_self, Nat.zero_add, hsb, Bool.not_true, Option.map_some, Option.getD_some, hsb0,
+            Bool.false_and, Bool.or_self]
+    · simp only [pStep, he, hm, hsk, hd, Bool.false_eq_true, if_false, Bool.not_false, if_true, h0, hpl, hft, hp1,
+        Bool.false_and, Bool.and_false, Bool.not_true, Option.map_some, Option.getD_some, hsb0, Bool.or_self]
+  · simp only [pStep, he, hm, hsk, hd, Bool.false_eq_true, if_false, Bool.not_false, if_true, h0, hpl, hft,
+      Option.map_some, Option.getD_some, hsb0, Bool.not_true, Bool.false_and, Bool.or_self]
+
+end
 end Genshi.Path.Frags
